@@ -26,6 +26,11 @@ size_t fread(void *buf, size_t sz, size_t n, FILE *fp){ __CPROVER_assert(fp == (
   char line[64]; int lvl = vf.level; int ppid = (lvl + 1 < depth) ? PID0 + lvl + 1 : 0;
   size_t o = put_d(line, 0, PID0 + lvl); o = put_s(line, o, " ("); o = put_s(line, o, names[lvl]); o = put_s(line, o, ") S "); o = put_d(line, o, ppid); o = put_s(line, o, " 0 0 0");
   size_t tot = sz * n; size_t k = 0; for (; k < o && k < tot; k++) ((char *)buf)[k] = line[k]; return k; }
+/* line-oriented readers see the same text, cut after its first newline (a process name may contain one) */
+char *fgets(char *buf, int n, FILE *fp){ __CPROVER_assert(fp == (FILE *)&vf && vf.open && n > 0, "fgets: on the open stat file");
+  char line[64]; int lvl = vf.level; int ppid = (lvl + 1 < depth) ? PID0 + lvl + 1 : 0;
+  size_t o = put_d(line, 0, PID0 + lvl); o = put_s(line, o, " ("); o = put_s(line, o, names[lvl]); o = put_s(line, o, ") S "); o = put_d(line, o, ppid); o = put_s(line, o, " 0 0 0\n");
+  size_t k = 0; for (; k < o && k + 1 < (size_t)n; k++) { buf[k] = line[k]; if (line[k] == '\n') { k++; break; } } buf[k] = 0; return buf; }
 int fclose(FILE *fp){ __CPROVER_assert(fp == (FILE *)&vf && vf.open, "fclose: on the open stat file"); vf.open = 0; closes++; return 0; }
 static int eq(const char *a, const char *b, size_t n){ size_t i = 0; while (i < n && a[i] && a[i] == b[i]) i++; return i == n && a[i] == 0; }
 static int spec(const char *list){
